@@ -133,6 +133,120 @@ var c09FieldRules = map[string]string{
 // frozen table: writes to shared types that cannot happen in the session phase for a reason the analysis cannot see
 var c09WriteAllowed = map[string]string{}
 
+// c09HeldSlice: v is a slice that something else keeps holding: loaded from a struct field, looked up in a map, or
+// returned (depth 2) by a module function that returns such a slice. Returns a description, "" when fresh or unknown.
+func c09HeldSlice(v ssa.Value, depth int) (string, ssa.Value) {
+	switch x := v.(type) {
+	case *ssa.UnOp:
+		if x.Op == token.MUL {
+			if fa, ok := x.X.(*ssa.FieldAddr); ok {
+				o, f := ownerOfFieldAddr(fa)
+				return "field " + o + "." + f, fa
+			}
+		}
+	case *ssa.Lookup:
+		if _, isMap := x.X.Type().Underlying().(*types.Map); isMap {
+			return "an element of " + core.ShortType(x.X.Type()), nil
+		}
+	case *ssa.Extract:
+		if lk, ok := x.Tuple.(*ssa.Lookup); ok && x.Index == 0 {
+			return "an element of " + core.ShortType(lk.X.Type()), nil
+		}
+	case *ssa.Call:
+		g := x.Call.StaticCallee()
+		if g == nil || g.Blocks == nil || depth >= 2 || !strings.HasPrefix(core.FuncPkgPath(g), core.ModPath) {
+			return "", nil
+		}
+		for _, ret := range core.Returns(g) {
+			for _, rv := range ret.Results {
+				if _, isSl := rv.Type().Underlying().(*types.Slice); !isSl {
+					continue
+				}
+				if d, _ := c09HeldSlice(rv, depth+1); d != "" {
+					return d + " (returned uncopied by " + core.FuncName(g) + ")", nil
+				}
+			}
+		}
+	}
+	return "", nil
+}
+
+func c09R8(p *core.Program, r *core.Report) {
+	scope := map[string]bool{"envs": true, "assets/static": true, "flows": true, "flows/definition": true, "flows/engine": true, "flows/routers": true, "flows/routers/cases": true, "flows/actions": true, "flows/inspect": true}
+	nAppends := 0
+	per := map[string]int{}
+	for _, fn := range p.ModuleFunctions() {
+		if !scope[core.RelPkg(core.FuncPkgPath(fn))] || p.IsTestFile(fn.Pos()) || fn.Synthetic != "" {
+			continue
+		}
+		core.EachInstr(fn, false, func(_ *ssa.Function, in ssa.Instruction) {
+			call, ok := in.(*ssa.Call)
+			if !ok {
+				return
+			}
+			if b, isB := call.Call.Value.(*ssa.Builtin); !isB || b.Name() != "append" {
+				return
+			}
+			nAppends++
+			// the re-slices the first argument derives from
+			seen := map[ssa.Value]bool{}
+			var held string
+			var heldAt ssa.Value
+			var walk func(v ssa.Value)
+			walk = func(v ssa.Value) {
+				if seen[v] || held != "" {
+					return
+				}
+				seen[v] = true
+				switch x := v.(type) {
+				case *ssa.Phi:
+					for _, e := range x.Edges {
+						walk(e)
+					}
+				case *ssa.Call:
+					if b, ok := x.Call.Value.(*ssa.Builtin); ok && b.Name() == "append" {
+						walk(x.Call.Args[0])
+					}
+				case *ssa.Slice:
+					if _, isSl := x.X.Type().Underlying().(*types.Slice); isSl {
+						if d, at := c09HeldSlice(x.X, 0); d != "" {
+							held, heldAt = d, at
+						}
+					}
+				}
+			}
+			walk(call.Call.Args[0])
+			if held == "" {
+				return
+			}
+			// stored back into the very field it was read from: the owner edits its own list
+			if heldAt != nil {
+				for _, ref := range *call.Referrers() {
+					if st, ok := ref.(*ssa.Store); ok {
+						if fa, ok := st.Addr.(*ssa.FieldAddr); ok {
+							if ha := heldAt.(*ssa.FieldAddr); fa.Field == ha.Field && fa.X == ha.X {
+								return
+							}
+						}
+					}
+				}
+			}
+			k := core.FuncName(fn)
+			per[k]++
+			key := k + "/append-into-held-slice"
+			if per[k] > 1 {
+				key = fmt.Sprintf("%s#%d", key, per[k])
+			}
+			r.Bad("R8", key, p.Pos(call.Pos()), "the append writes into the backing array of "+held+": whoever else reads that slice — another session over the same assets — sees its elements overwritten")
+		})
+	}
+	if len(per) == 0 {
+		r.OK("R8", "no-append-into-held-slice", "", fmt.Sprintf("%d appends scanned; none writes into a re-slice of a field, map element or uncopied result (appends stored back into the owner's own field excepted)", nAppends))
+	}
+	r.Count("appends_scanned", nAppends)
+	r.Require("appends_scanned", nAppends, 40)
+}
+
 func checkC09(p *core.Program, r *core.Report) {
 	r.Rule("R1", "shared-write audit: the session-phase entry points (NewSession, Resume, ReadSession, MarshalJSON, Inspect/Extract*, ChangeLanguage, evaluation, modifiers.Apply, asset getters) have no interprocedural write summary through a non-fresh object of a type reachable from SessionAssets/FlowAssets (including appends into re-slices of shared slices); package-level variables are not written outside init")
 	r.Rule("R2", "lock discipline: every access to flowAssets.cache is preceded by mutex.Lock() in the same function with the Unlock deferred (no explicit Unlock can reach the access)")
@@ -141,6 +255,8 @@ func checkC09(p *core.Program, r *core.Report) {
 	r.Rule("R4", "the writer callbacks handed out by EnumerateLocalizables are invoked only on a flow that is a fresh copy")
 	r.Rule("R6", "package-level expression values are never marked: XValue.SetDeprecated (the one mutator of X values) is only called on a value that cannot be a package-level variable — followed backwards through phis, conversions and the returns of the module functions that produced it (a conversion that hands out shared singletons such as XBooleanTrue makes the mark visible to every session)")
 	r.Rule("R5", "JSON decode targets do not alias shared data: no pointer field of a struct handed to a JSON decoder can hold a pointer derived from a package-level variable at the call (encoding/json writes through existing pointers), unless the function stores a fresh value into it first")
+	r.Rule("R8", "no append into the backing array of a slice that is held elsewhere: in the packages that hold shared assets and definitions (envs, assets/static, flows, flows/definition, flows/engine, flows/routers, flows/routers/cases, flows/actions, flows/inspect) the first argument of an append never derives — through phis and earlier appends — from a re-slice x[lo:hi] of a slice that was read from a struct field, from a map, or returned by a module function that returns such a slice without copying it, unless the result is stored back into the very place the slice was read from (x = append(x[:i], x[i+1:]...) on the owner's own field): `filtered := matches[:0]` over the per-level name lookup of the location hierarchy lets one session overwrite what every other session reads")
+	c09R8(p, r)
 	r.Assumption("dependencies (validator caches, regexp) are goroutine-safe; the host's asset source is goroutine-safe")
 
 	shared := sharedTypes(p)
